@@ -1335,14 +1335,15 @@ impl ProtocolState {
         }
 
         if let Some(timeout_duration) = timeout_duration_option {
-            let timeout = now + timeout_duration;
+            // a deadline too far away to be represented never comes due
+            if let Some(timeout) = now.checked_add(timeout_duration) {
+                let timeout_record = OperationTimeoutRecord {
+                    id,
+                    timeout
+                };
 
-            let timeout_record = OperationTimeoutRecord {
-                id,
-                timeout
-            };
-
-            self.operation_ack_timeouts.push(Reverse(timeout_record));
+                self.operation_ack_timeouts.push(Reverse(timeout_record));
+            }
         }
     }
 
